@@ -199,6 +199,14 @@ impl Db {
         if rebuild {
             log::info!("rebuilding search index at {}", config.index_path.display());
 
+            // The metadata must stop vouching for the index before it is
+            // rewritten in place, otherwise an interrupted rebuild leaves
+            // another data set behind which the build that wrote the metadata
+            // takes for its own.
+            if !in_memory && config.meta_path.is_file() {
+                std::fs::remove_file(&config.meta_path)?;
+            }
+
             // NB: a single indexing thread keeps the documents in the order of
             // the shipped data, so that equally good matches are ranked the
             // same way every time the index is built.
